@@ -76,6 +76,48 @@ class Nest:
         return inner['iter_def_bb'] is not None and inner['iter_def_bb'] in outer['loop']['body']
 
     # ------------------------------------------------------------------------------------------------------
+    def iteration(self, inner, stops, models=(), params=None, max_paths=400, opaque=()):
+        """Symbolic execution of ONE iteration of loop `inner` (a loop record): the function is executed from its entry with
+        symbolic parameters, every enclosing loop is entered once with a fresh symbolic item `item<header>`, loops that do
+        not enclose `inner` are skipped (their iterator is exhausted), and from the start of inner's body execution runs
+        until a block of `stops`, the next iteration (inner's header) or a return.
+        Returns (sx, [Outcome]) with Outcome.ret = ('stopped', bb) | return value; Outcome.pc holds the branch conditions."""
+        from .sym import SymEx, SYM, STRUCT
+        b = self.b
+        enclosing = [d for d in self.loops if inner['header'] in d['loop']['body']]
+        enc_terms = {id(d['next_term']): d for d in enclosing}
+        all_next = {id(d['next_term']): d for d in self.loops}
+
+        def next_model(sx, st, name, declared, args, t):
+            if id(t) in enc_terms:
+                return STRUCT('std::option::Option', ('Some', 1), [('0', SYM('item%d' % enc_terms[id(t)]['header']))])
+            if id(t) in all_next:
+                return STRUCT('std::option::Option', ('None', 0), [])
+            return None
+        sx = SymEx(self.f, models=[next_model] + list(models), max_paths=max_paths, opaque=opaque)
+        names = params or {}
+        argv = [SYM(names.get(i) or b.local_name(i) or 'arg%d' % i) for i in b.args()]
+        sx.stop_blocks = {inner['some']}
+        outs0 = sx.run(b, argv)
+        sx.stop_blocks = set()
+        res = []
+        for o in outs0:
+            if not (isinstance(o.ret, tuple) and o.ret[0] == 'stopped'):
+                continue
+            fid = min(o.st.frames)          # the outermost frame is the function's own
+            res += sx.run_from(b, inner['some'], o.st, fid, set(stops) | {inner['header']})
+        return sx, res
+
+    def arg_values(self, sx, o, bb):
+        """Argument values of the call that ends block bb, for an outcome stopped at the entry of bb."""
+        st = o.st.fork()
+        fid = min(st.frames)
+        blk = self.b.blocks[bb]
+        for s in blk['stmts']:
+            if s['s'] == 'assign':
+                sx.write_place(st, fid, s['place'], sx.rvalue(st, fid, s['rv']))
+        return [sx.deep(st, sx.operand(st, fid, a)) for a in blk['term']['args']]
+
     def bool_reduction(self, leaf_bbs):
         """How the function's bool result depends on the leaf calls' results: returns (ok, description).  ok means:
         returns true on every path that saw a leaf return true, false on every path that did not."""
